@@ -306,6 +306,11 @@ func (te *TemplateEngine) RenderToDocument(templateName string, data *TemplateDa
 	}
 	verifPoint("engine.render.got")
 
+	return te.renderFetchedToDocument(template, templateName, data)
+}
+
+// renderFetchedToDocument 将已取得的模板渲染到新文档（不再按名称重新查找模板）
+func (te *TemplateEngine) renderFetchedToDocument(template *Template, templateName string, data *TemplateData) (*Document, error) {
 	// 创建新文档
 	var doc *Document
 	if template.BaseDoc != nil {
@@ -1813,8 +1818,8 @@ func (te *TemplateEngine) RenderTemplateToDocument(templateName string, data *Te
 		return doc, nil
 	}
 
-	// 如果没有基础文档，使用原有的方式
-	return te.RenderToDocument(templateName, data)
+	// 如果没有基础文档，使用原有的方式（使用已取得的模板，避免再次查找时模板已被替换）
+	return te.renderFetchedToDocument(template, templateName, data)
 }
 
 // replaceVariablesInDocument 在文档结构中直接替换变量
